@@ -29,6 +29,21 @@ def extra_run(man, tier, seed):
     return out
 
 
+def stat_tok(stat, xs, pv):
+    """`Q <fields>` token of the sufficient statistic of xs, or None where no closed form is coded here"""
+    from props import C07
+    try:
+        if stat == 'CategoricalSuffStat':
+            k = len(pv[0]) if isinstance(pv[0], (list, tuple)) else int(pv[1])
+            counts = [float(sum(1 for x in xs if x == j)) for j in range(k)]
+            return 'Q ' + enc((len(xs), counts))
+        if stat in ('PoissonSuffStat', 'BernoulliSuffStat', 'GaussianSuffStat'):
+            return 'Q ' + enc(tuple(C07.closed_form(stat, xs)))
+    except Exception:
+        return None
+    return None
+
+
 def extra_run_pairs(man, tier, seed):
     """implementation-level relations: posterior(no data) = prior; sequential = batch; data arm = statistic arm"""
     rng = random.Random(seed * 29 + 3)
@@ -43,9 +58,15 @@ def extra_run_pairs(man, tier, seed):
             pv = gen.struct_value(prior, structs, rng)
             xs = datasets(rng, obs, pv, 1)[0]
             ys = datasets(rng, obs, pv, 1, sizes=(0, 1, 3, 10))[0]
+            if lik == 'Poisson' and rng.random() < 0.3:
+                # several counts near the top of the observation type: their total exceeds 2^32
+                xs = [rng.randint(2 ** 31, 2 ** 32 - 1) for _ in range(rng.choice([2, 3, 5]))]
             base = len(lines)
             lines += [f'{post} {kind} {enc(pv)} {data_tok([])}', f'{post} {kind} {enc(pv)} {data_tok(xs + ys)}',
                       f'{post} {kind} {enc(pv)} {data_tok(xs)}']
+            # statistic arm: the same data as a sufficient statistic (closed forms of props/C07.py, exact where possible)
+            st = stat_tok(stat, xs + ys, pv)
+            lines.append(f'{post} {kind} {enc(pv)} {st}' if st else 'noop - ')
             meta.append((prior, lik, kind, suf, base, pv, xs, ys, post, stat))
     impl, _ = run_pair(lines, want_model=False)
     # second stage: posterior of the posterior on ys (only where the posterior type is the prior type), statistic arm
@@ -72,6 +93,13 @@ def extra_run_pairs(man, tier, seed):
             ok, detail = cmp_tokens(a0, enc(pv), 1e-12, 1e-15 * mag ** 3)
             if not ok:
                 failures.append({'site': post, 'case': lines[b], 'impl': a0, 'expected': enc(pv) + ' (the prior)', 'observed': 'value', 'detail': detail})
+        a_stat = impl[b + 3]
+        if a_stat not in ('NOOP', 'PANIC', 'HANG', 'DIED') and not a_stat.startswith('BAD') and impl[b + 1] not in ('PANIC', 'HANG'):
+            scale = sum(abs(float(v)) for v in xs + ys if not isinstance(v, bool)) + 1.0
+            ok, detail = cmp_tokens(a_stat, impl[b + 1], 1e-9, 1e-9 * scale * scale)
+            if not ok:
+                failures.append({'site': post, 'case': lines[b + 1], 'impl': impl[b + 1], 'expected': a_stat + ' (posterior from the sufficient statistic of the same data)',
+                                 'observed': 'value', 'detail': 'data arm differs from statistic arm: ' + detail, 'stat_case': lines[b + 3]})
         if any(a in ('PANIC', 'HANG') for a in impl[b:b + 3]):
             failures.append({'site': post, 'case': lines[b + 1], 'impl': ' | '.join(impl[b:b + 3]), 'expected': 'a valid posterior',
                              'observed': 'panic', 'detail': 'posterior panicked on valid prior and data'})
